@@ -9,7 +9,7 @@ def cfg_line(kind='wl', cmin=0, cmax=3, q=4, ncl=1, scale=1, lazy=0, perturb=0, 
     return '@%s %d %d %d %d %d %d %d %d' % (kind, cmin, cmax, q, ncl, scale, lazy, perturb, seed)
 
 
-def gen_script(rng, ncl, nops, nf=NF, work3=0.06, pauses=0.1, long_pause=0.0, works=(0, 0, 1, 2)):
+def gen_script(rng, ncl, nops, nf=NF, work3=0.06, pauses=0.1, long_pause=0.0, works=(0, 0, 1, 2), destroy=0.04):
     """Random admissible client scripts.  Every future belongs to one client (f mod ncl).
     A call with work 3 (waits for abort()) is always aborted before anything waits for it."""
     ops = []
@@ -46,6 +46,8 @@ def gen_script(rng, ncl, nops, nf=NF, work3=0.06, pauses=0.1, long_pause=0.0, wo
             ops.append('c %d check %d' % (c, f))
         elif r < 0.90:
             ops.append('c %d abort %d' % (c, f))
+        elif r < 0.90 + destroy:
+            ops.append('c %d destroy %d' % (c, f))     # delete (the destructor joins) + new
         else:
             if rng.random() < long_pause:
                 ops.append('c %d pause %d' % (c, rng.choice([20, 40, 80])))
@@ -70,11 +72,114 @@ PROFILES = {
     # queue: between claiming a ticket (CAS on _head/_tail) and publishing the slot
     'publish': ['* pre nhead * * 1000000 sleep 120 300', '* pre ntail * * 1000000 sleep 120 300',
                 '* post tail * * 1000000 sleep 60 150', '* post head * * 1000000 sleep 60 150'],
+    # worker in front of the pthread_cond_broadcast of a Future's Signal (inside Signal::set())
+    'lifetime': ['w prebc fut * * 1000000 sleep 250 700'],
 }
 
 
 def profile_lines(name):
     return ['c 0 gate rule %d %s' % (i, r) for i, r in enumerate(PROFILES[name])]
+
+
+START_VARIANTS = ['start', 'startf0', 'startf1', 'startf3', 'startf4', 'startf5', 'startm0', 'startm1', 'startm2', 'startm3', 'startm4']
+
+
+def gen_variants(rng, ncl, ncalls):
+    """Every overload of Future<A>::start and Future<void>::start (free functions of arity 0-5, member
+    functions of arity 0-4) on Future<int64> slots 0-7 and Future<void> slots 8-15; results and echoes
+    taken right away.  The same calls for model and spec."""
+    ops = []
+    a = rng.randrange(1000)
+    for _ in range(ncalls):
+        c = rng.randrange(ncl)
+        f = rng.choice([f for f in range(16) if f % ncl == c])
+        a += 1 + rng.randrange(9)
+        arg = a if rng.random() < 0.85 else -a
+        ops.append('c %d %s %d %d %d' % (c, rng.choice(START_VARIANTS), f, arg, rng.choice([0, 0, 0, 1, 2])))
+        k = rng.randrange(5)
+        if k == 0 and f < 8:
+            ops += ['c %d get %d' % (c, f)]
+        elif k == 1:
+            ops += ['c %d join %d' % (c, f), 'c %d check %d' % (c, f)]
+        elif k == 2:
+            ops += ['c %d abort %d' % (c, f), 'c %d join %d' % (c, f), 'c %d check %d' % (c, f)]
+        elif k == 3:
+            ops += ['c %d destroy %d' % (c, f)]
+        # else: left running; the next start on the slot, or the end of the case, joins it
+    return ops
+
+
+def gen_reuse(rng, ncl, ncalls):
+    """One Future object used again and again: start, take the result, start again, take the result -
+    the second result must be the second call's (distinct arguments), also after an abort and with
+    the join done by the next start."""
+    ops = []
+    a = rng.randrange(1000)
+    fs = {c: [f for f in range(4) if f % ncl == c] for c in range(ncl)}
+    for _ in range(ncalls):
+        c = rng.randrange(ncl)
+        f = rng.choice(fs[c])
+        for rep_ in range(rng.choice([2, 2, 3, 4])):
+            a += 1 + rng.randrange(9)
+            ops.append('c %d %s %d %d %d' % (c, rng.choice(['start', 'start', 'startf3', 'startm2']), f, a, rng.choice([0, 0, 1])))
+            k = rng.randrange(6)
+            if k <= 2:
+                ops.append('c %d get %d' % (c, f))
+            elif k == 3:
+                ops += ['c %d join %d' % (c, f), 'c %d get %d' % (c, f)]
+            elif k == 4:
+                ops += ['c %d join %d' % (c, f), 'c %d check %d' % (c, f), 'c %d get %d' % (c, f)]
+            # k == 5: the next start joins
+        ops.append('c %d get %d' % (c, f))
+    return ops
+
+
+def gen_nested(rng, ncl, ncalls):
+    """Started functions that start another future themselves (work = 4 + child slot, child slots
+    16..): "started from any threads".  Used with a queue that cannot fill (see the open finding)."""
+    ops = []
+    a = rng.randrange(1000)
+    child = 16
+    for _ in range(ncalls):
+        c = rng.randrange(ncl)
+        f = rng.choice([f for f in range(NF) if f % ncl == c])
+        a += 1 + rng.randrange(9)
+        if rng.random() < 0.6 and child < 40:
+            ops.append('c %d start %d %d %d' % (c, f, a, 4 + child))
+            child += 1
+        else:
+            ops.append('c %d start %d %d %d' % (c, f, a, rng.choice([0, 1])))
+        k = rng.randrange(4)
+        if k == 0:
+            ops.append('c %d get %d' % (c, f))
+        elif k == 1:
+            ops.append('c %d join %d' % (c, f))
+    return ops
+
+
+OPEN_NESTED = 'corpus/C10/open/nested-start-full-queue.ops'
+
+
+def gen_lifetime(rng, ncl, ncalls, nf=NF):
+    """start, wait for the result, destroy the Future at once (delete + new): `Future<T>* f = new …;
+    f->start(…); x = *f; delete f;` or a Future on the stack of a function that returns."""
+    ops = []
+    a = rng.randrange(1000)
+    for _ in range(ncalls):
+        c = rng.randrange(ncl)
+        f = rng.choice([f for f in range(nf) if f % ncl == c])
+        a += 1 + rng.randrange(7)
+        ops.append('c %d start %d %d %d' % (c, f, a, rng.choice([0, 0, 1])))
+        k = rng.randrange(4)
+        if k == 0:
+            ops += ['c %d get %d' % (c, f), 'c %d destroy %d' % (c, f)]
+        elif k == 1:
+            ops += ['c %d join %d' % (c, f), 'c %d destroy %d' % (c, f)]
+        elif k == 2:
+            ops += ['c %d destroy %d' % (c, f)]                      # the destructor does the join
+        else:
+            ops += ['c %d join %d' % (c, f), 'c %d get %d' % (c, f), 'c %d check %d' % (c, f), 'c %d destroy %d' % (c, f), 'c %d check %d' % (c, f)]
+    return ops
 
 
 def gen_handshake(rng, ncl, ncalls, nf=NF):
@@ -235,12 +340,31 @@ class C10(Check):
             if impl_obs[i] and impl_obs[i][0].startswith('not-run'):
                 continue
             dl = [l for l in impl_obs[i] if l.startswith('deadlock ')]
-            if dl:
+            nested = any(re.match(r'c \d+ start\w* \d+ -?\d+ ([4-9]|\d\d)$', l) for l in cases[i])
+            m = re.search(r'queue.head=(\d+) queue.tail=(\d+) .* deq.state=0 deq.flag=0', dl[0]) if dl else None
+            if dl and nested and m and int(m.group(2)) > int(m.group(1)):
+                reason = ('started function blocked in start() on a full queue (open finding): every worker waits in ThreadPool::run for a '
+                          'pop that only workers perform; the watchdog reports `%s`' % dl[0])
+            elif dl:
                 gated = any(' gate rule ' in l and ' sleep ' not in l for l in cases[i])
                 reason = ('%s never ends (spec: all %d operations of the scripts return); the watchdog reports `%s`'
                           % ('gated replay of a model schedule' if gated else 'case', len(spec_obs[i]), dl[0]))
             fails.append((i, k, reason))
         return fails
+
+    def open_cases(self):
+        out = []
+        cur = None
+        for line in open(os.path.join(VERIF, OPEN_NESTED)).read().split('\n'):
+            if line.startswith('case'):
+                cur = []
+            elif line == 'end':
+                if cur is not None:
+                    out.append((os.path.basename(OPEN_NESTED), cur))
+                cur = None
+            elif cur is not None and line and not line.startswith('#'):
+                cur.append(line)
+        return out
 
     def nontrivial(self, case, obs):
         starts = sum(1 for l in case if ' start ' in l)
@@ -320,6 +444,56 @@ class C10(Check):
                                    perturb=rng.choice([0, 1]), seed=sd())]
                          + profile_lines('publish') + gen_script(rng, ncl, rng.randrange(10, 50), works=(0, 0, 1)))
         out.append(Stream('publish', cases, note='pushers/poppers delayed between ticket claim and slot publication, queue capacity 1-4'))
+        # 9. a Future destroyed right after its result has been taken; the completing worker is delayed
+        #    inside Signal::set(), in front of the broadcast
+        cases = []
+        for i in range(20 * mul):
+            ncl = rng.choice([1, 1, 2])
+            cases.append([cfg_line(cmin=rng.choice([0, 1]), cmax=3, q=rng.choice([2, 4]), ncl=ncl, perturb=0, seed=sd())]
+                         + profile_lines('lifetime') + gen_lifetime(rng, ncl, rng.randrange(3, 10)))
+        lifetime_stream = Stream('lifetime', cases, note='start, get/join, delete the Future (and create a new one); worker delayed in front of the broadcast of the Future\'s Signal')
+        out.append(lifetime_stream)
+        # 10. every overload of start (arity 0-5, member functions) on Future<int64> and Future<void>
+        cases = []
+        for i in range(25 * mul):
+            ncl = rng.choice([1, 2, 3])
+            cases.append([cfg_line(cmin=rng.choice([0, 1]), cmax=rng.choice([3, 4]), q=rng.choice([1, 2, 4, 8]), ncl=ncl,
+                                   perturb=rng.choice([0, 1, 2]), seed=sd())] + gen_variants(rng, ncl, rng.randrange(6, 24)))
+        out.append(Stream('variants', cases, note='all start overloads: free functions of arity 0-5, member functions of arity 0-4, Future<int64> and Future<void>'))
+        # 11. a Future object used again: the second result is the second call's
+        cases = []
+        for i in range(25 * mul):
+            ncl = rng.choice([1, 1, 2])
+            prof = profile_lines(rng.choice(['handshake', 'lifetime'])) if i % 2 else []
+            cases.append([cfg_line(cmin=rng.choice([0, 1]), cmax=3, q=rng.choice([1, 2, 4]), ncl=ncl, perturb=0 if prof else rng.choice([0, 1, 2]), seed=sd())]
+                         + prof + gen_reuse(rng, ncl, rng.randrange(2, 6)))
+        out.append(Stream('reuse', cases, note='start, get, start again on the same Future, get: results of distinct calls; half of the cases with the completion handshake delayed'))
+        # 12. many futures, several workers popping from a FULL queue at once, clients blocked in start()
+        cases = []
+        for i in range(25 * mul):
+            ncl = rng.choice([2, 3, 4])
+            ops = []
+            a = rng.randrange(100)
+            nfu = 16
+            for k in range(rng.randrange(24, 48)):
+                f = rng.randrange(nfu)
+                a += 1
+                ops.append('c %d %s %d %d %d' % (f % ncl, rng.choice(['start', 'start', 'startf1', 'startm3']), f, a, rng.choice([0, 1, 1, 2])))
+            cases.append([cfg_line(cmin=rng.choice([0, 3]), cmax=rng.choice([3, 4, 6]), q=rng.choice([2, 4, 4, 8]), ncl=ncl,
+                                   perturb=rng.choice([0, 1, 2]), seed=sd())] + ops)
+        out.append(Stream('burst', cases, note='16 futures, 24-48 starts by 2-4 clients, queue capacity 2-8 with 3-6 workers popping at once: every pop must wake a client blocked in start()'))
+        # 13. started functions that start futures (queue large enough never to fill)
+        cases = []
+        for i in range(15 * mul):
+            ncl = rng.choice([1, 2])
+            cases.append([cfg_line(cmin=rng.choice([0, 1]), cmax=rng.choice([3, 4]), q=64, ncl=ncl, perturb=rng.choice([0, 1, 2]), seed=sd())]
+                         + gen_nested(rng, ncl, rng.randrange(4, 14)))
+        out.append(Stream('nested', cases, note='started functions start another future themselves; queue capacity 64 (never full)'))
+        # the open finding (a worker blocked in start() on a full queue): its witness runs only while
+        # known_findings.json lists it as open, and then prints KNOWN-FINDING
+        if any(k.get('status') == 'open' and k.get('witness') == OPEN_NESTED for k in self.known_findings()):
+            wc = [c for (f, c) in self.open_cases()]
+            out.append(Stream('nested-open', wc, note='open finding: started functions that start futures, full queue'))
         return out
 
     def extra_checks(self, tier, rng, ctx):
@@ -334,6 +508,17 @@ class C10(Check):
                 ('window-q4.ops', '5', '700000', {}, False)]
         if tier == 'thorough':
             jobs += [('window-q4.ops', '7', '12000000', {}, False), ('window-q1.ops', '6', '20000000', {}, False)]
+        # random-schedule hunt: the model has the deadlock of the open finding (worker-side start on a full queue)
+        rc, out, err = sh([drv, 'hunt', os.path.join(sdir, 'nested-q1.ops'), '400'], timeout=300)
+        head = ' / '.join(l for l in out.split('\n') if l.startswith('#'))
+        log('[C10] model hunt nested-q1.ops (open finding, started functions start futures, capacity 1): %s' % head)
+        if rc != 0 or 'deadlock after' not in out:
+            p = self.write_replay('no-failing-input-found', 'random-schedule hunt of the model (nested-q1.ops): the deadlock of the open finding must be found: %s' % (head or err[-300:]),
+                                  [], {'file': 'nested-q1.ops', 'rc': rc})
+            ctx['violations'].append((p, ' no-failing-input-found'))
+        if tier == 'thorough':
+            # two clients, capacity 1 (audit finding 4)
+            jobs += [('window2-q1.ops', '6', '9000000', {}, False)]
         for f, window, limit, env, expect in jobs:
             e = dict(os.environ)
             e.update(env)
